@@ -111,9 +111,12 @@ def subscript_edge_formulas():
     for k in range(1, 23):
         subs += ["1" + "0" * k, "9" * k]
     subs += ["1.0000000000000002", "0.30000000000000004", "0.1234567890123456789012345", "1.000000", "01", "007", "0.10", "2.50"]
+    subs += [".5", ".25", ".0625", ".999"]                 # a subscript may begin with the decimal point
     out = []
     for s_ in subs:
-        out += ["H%sO" % s_, "Ca(OH)%s" % s_, "((H%s)2O)3" % s_, "Si0.9999995B%s" % s_]
+        # every position a subscript can stand in: after a one-letter symbol, after a TWO-letter symbol (the scanner decides one- versus two-letter by what follows
+        # the second character), after a group, inside nested groups, at the end of the string
+        out += ["H%sO" % s_, "Ca(OH)%s" % s_, "((H%s)2O)3" % s_, "Si0.9999995B%s" % s_, "Ca%sO" % s_, "He%s" % s_, "(HLi%s)2O" % s_, "La%sSr%sMnO3" % (s_, s_)]
     return sorted(set(out))
 
 
